@@ -5,7 +5,7 @@
    direction (asymmetric calculations: covariance 1, covariogram 2, non-centred covariance 9; Vario.cpp:2120).
    Undefined Sw/Hh/Gg are written as NA.
    Not written: the breaks of irregular lags (only the flag), bench, cylrad, idate, dates, faults, the tolerance on
-   angle of a direction defined on a grid. *)
+   angle of a direction defined on a grid; in the dialect with calculation flag 4 only the faults and that tolerance. *)
 From Coq Require Import Ascii String.
 From Coq Require Import List ZArith QArith Bool.
 From Gst Require Import C08.Codec C08.Model.
@@ -16,13 +16,14 @@ Local Open Scope Z_scope.
 
 Definition triple := (dbl * dbl * dbl)%type.      (* sw, hh, gg *)
 Record vdir := {
-  vd_regular : bool;          (* getFlagRegular(): no breaks *)
   vd_npas : Z; vd_optcode : Z; vd_tolcode : dbl; vd_dpas : dbl; vd_toldist : dbl;
   vd_grincr : list Z;         (* empty: direction not defined on a grid *)
   vd_tolang : dbl; vd_codir : list dbl;
+  vd_bench : dbl; vd_cylrad : dbl; vd_idate : Z;
+  vd_breaks : list dbl;       (* empty: regular lags (getFlagRegular) *)
   vd_res : list triple }.     (* getDirSize(idir) entries *)
 Record vario := {
-  vr_ndim : Z; vr_nvar : Z; vr_scale : dbl; vr_calcul : Z;
+  vr_ndim : Z; vr_nvar : Z; vr_scale : dbl; vr_calcul : Z; vr_dates : list dbl;
   vr_names : list word; vr_vars : list (list dbl) (* nvar rows of nvar *); vr_dirs : list vdir }.
 
 Definition is_asym (calcul : Z) : bool := (calcul =? 1) || (calcul =? 2) || (calcul =? 9).      (* _setFlagAsym *)
@@ -30,33 +31,54 @@ Definition lag_total (calcul npas : Z) : Z := if is_asym calcul then 2 * npas + 
 Definition dbl_of_Z (z : Z) : dbl := Some (inject_Z z).
 Definition unknown : word := W "Unknown".
 
+Section Dialect.
+(* [v4]: dialect with calculation flag 4: the date bounds, and for each direction bench, cylinder radius, reference
+   date and breaks, are stored (a reader of that dialect still reads the files with flag 2 or 3) *)
+Variable v4 : bool.
+
 Definition ser_triple (t : triple) : list record :=
   let '(sw, hh, gg) := t in [ r_dbl "" sw; r_dbl "" hh; r_dbl "" gg; r_com "" ].
+Definition ser_vcomp (d : vdir) : list record :=
+  if v4 then
+    [ r_dbl "Slicing bench" (vd_bench d); r_dbl "Slicing radius" (vd_cylrad d); r_int "Reference Date" (vd_idate d);
+      r_int "Number of Breaks" (lenZ (vd_breaks d)) ]
+    ++ (if null (vd_breaks d) then [] else [ r_vdbl "Breaks" (vd_breaks d) ])
+  else [].
 Definition ser_vdir (d : vdir) : list record :=
   [ r_com "Direction characteristics";
-    r_int "Regular lags" (b2z (vd_regular d)); r_int "Number of lags" (vd_npas d); r_int "" (vd_optcode d);
+    r_int "Regular lags" (b2z (null (vd_breaks d))); r_int "Number of lags" (vd_npas d); r_int "" (vd_optcode d);
     r_dbl "Code selection: Option - Tolerance" (vd_tolcode d); r_dbl "Lag value" (vd_dpas d);
     r_dbl "Tolerance on distance" (vd_toldist d); r_int "Grid Definition" (b2z (negb (null (vd_grincr d)))) ]
   ++ (if null (vd_grincr d)
       then r_dbl "Tolerance on angle" (vd_tolang d) :: map (r_dbl "") (vd_codir d) ++ [ r_com "Direction coefficients" ]
       else map (fun g => r_dbl "" (dbl_of_Z g)) (vd_grincr d) ++ [ r_com "Direction increments on grid" ]
            ++ map (r_dbl "") (vd_codir d) ++ [ r_com "Direction coefficients" ])
+  ++ ser_vcomp d
   ++ [ r_com "Variogram results (Weight, Distance, Variogram)" ] ++ flat_map ser_triple (vd_res d).
 
 Definition ser_Vario (o : vario) : list record :=
   [ r_int "Space Dimension" (vr_ndim o); r_int "Number of variables" (vr_nvar o);
-    r_int "Number of directions" (lenZ (vr_dirs o)); r_dbl "Scale" (vr_scale o); r_int "Calculation Flag" 3;
+    r_int "Number of directions" (lenZ (vr_dirs o)); r_dbl "Scale" (vr_scale o); r_int "Calculation Flag" (if v4 then 4 else 3);
     r_com "Variable Names" ]
   ++ map (fun i => r_str "" (nth i (vr_names o) unknown)) (seq 0 (Z.to_nat (vr_nvar o)))
   ++ [ r_com ""; r_com "Variance" ]
   ++ flat_map (fun row => map (r_dbl "") row ++ [ r_com "" ]) (vr_vars o)
   ++ [ r_int "Calculation Type" (vr_calcul o) ]
+  ++ (if v4 then r_int "Number of Date bounds" (lenZ (vr_dates o)) :: (if null (vr_dates o) then [] else [ r_vdbl "Date bounds" (vr_dates o) ])
+      else [])
   ++ flat_map ser_vdir (vr_dirs o).
 
 Definition rd_triple : reader triple :=
   sw <- rd_dbl ;; hh <- rd_dbl ;; gg <- rd_dbl ;; ret (sw, hh, gg).
 Definition cap90 (d : dbl) : dbl :=                      (* if (_tolAngle > 90.) _tolAngle = 90. *)
   match d with Some q => if Qle_bool q 90 then d else Some 90%Q | None => Some 90%Q end.   (* TEST > 90 *)
+(* a count followed by that many values on a line (nothing when the count is 0; a negative count is refused) *)
+Definition rd_counted : reader (list dbl) :=
+  n <- rd_int ;; if n <? 0 then fail else if 0 <? n then rd_vdbl n else ret [].
+Definition rd_vcomp (fcalc : Z) : reader (dbl * dbl * Z * list dbl) :=
+  if v4 && (4 <=? fcalc) then
+    b <- rd_dbl ;; c <- rd_dbl ;; i <- rd_int ;; br <- rd_counted ;; ret (b, c, i, br)
+  else ret (None, None, 0, []).
 
 (* one direction; tolang is the C++ local variable that survives from one direction to the next *)
 Definition rd_vdir (ndim nvar fcalc calcul : Z) (tolang : dbl) : reader (vdir * dbl) :=
@@ -66,10 +88,13 @@ Definition rd_vdir (ndim nvar fcalc calcul : Z) (tolang : dbl) : reader (vdir * 
          then g <- rd_vint ndim ;; c <- rd_vdbl ndim ;; ret (g, c, tolang)
          else ta <- rd_dbl ;; c <- rd_vdbl ndim ;; ret ([], c, ta)) ;;
   let '(g, c, ta) := gc in
+  cp <- rd_vcomp fcalc ;;
+  let '(bench, cyl, idate, breaks) := cp in
   (* getDirSize: the direction holds lagtotal * nvar (nvar+1)/2 results *)
   res <- (if z2b fcalc then rrepZ (lag_total calcul npas * (nvar * (nvar + 1) / 2)) rd_triple else ret []) ;;
-  ret ({| vd_regular := true; vd_npas := npas; vd_optcode := optcode; vd_tolcode := tolcode; vd_dpas := dpas;
-          vd_toldist := toldis; vd_grincr := g; vd_tolang := cap90 ta; vd_codir := c; vd_res := res |}, ta).
+  ret ({| vd_npas := npas; vd_optcode := optcode; vd_tolcode := tolcode; vd_dpas := dpas;
+          vd_toldist := toldis; vd_grincr := g; vd_tolang := cap90 ta; vd_codir := c;
+          vd_bench := bench; vd_cylrad := cyl; vd_idate := idate; vd_breaks := breaks; vd_res := res |}, ta).
 Fixpoint rd_vdirs (n : nat) (ndim nvar fcalc calcul : Z) (tolang : dbl) : reader (list vdir) :=
   match n with
   | O => ret []
@@ -84,6 +109,8 @@ Definition deser_Vario : reader vario :=
            else ret (map (fun i => map (fun j => if Nat.eqb i j then d1 else d0) (seq 0 (Z.to_nat nvar))) (seq 0 (Z.to_nat nvar)))) ;;
   (* files written before the calculation type was stored (flag < 3) are variograms: setCalculByName("vg") *)
   calcul <- (if 3 <=? fcalc then rd_int else ret 0) ;;
+  dates <- (if v4 && (4 <=? fcalc) then rd_counted else ret []) ;;
   dirs <- rd_vdirs (Z.to_nat ndir) ndim nvar fcalc calcul d0 ;;
-  ret {| vr_ndim := ndim; vr_nvar := nvar; vr_scale := scale; vr_calcul := calcul;
+  ret {| vr_ndim := ndim; vr_nvar := nvar; vr_scale := scale; vr_calcul := calcul; vr_dates := dates;
          vr_names := names; vr_vars := vars; vr_dirs := dirs |}.
+End Dialect.
